@@ -15,6 +15,7 @@ package j5convert
 
 import (
 	"buf.build/gen/go/bufbuild/protovalidate/protocolbuffers/go/buf/validate"
+	"github.com/pentops/j5/gen/j5/client/v1/client_j5pb"
 	"github.com/pentops/j5/gen/j5/schema/v1/schema_j5pb"
 	"github.com/pentops/j5/gen/j5/sourcedef/v1/sourcedef_j5pb"
 	"google.golang.org/protobuf/proto"
@@ -452,6 +453,10 @@ func HarnessRuleSemantics() {
 		optional = ndBool("optional")
 	}
 	enum := &schema_j5pb.Enum{Name: "Mood", Prefix: "MOOD_", Options: []*schema_j5pb.Enum_Option{{Name: "GLAD"}, {Name: "SAD"}, {Name: "MAD"}}}
+	if kind == rkEnum && ndBool("explicitUnspecified") {
+		// the zero value listed explicitly as the first option: same numbers
+		enum.Options = append([]*schema_j5pb.Enum_Option{{Name: "UNSPECIFIED"}}, enum.Options...)
+	}
 	src := verifSourceFile(
 		verifObjectElement("Thing", []*schema_j5pb.ObjectProperty{{Name: "f", Schema: field, Required: required, ExplicitlyOptional: optional}}),
 		&sourcedef_j5pb.RootElement{Type: &sourcedef_j5pb.RootElement_Enum{Enum: enum}})
@@ -592,4 +597,133 @@ func HarnessEnumAppendNames() {
 		last := b.Value[len(b.Value)-1]
 		verifAssert(int(last.GetNumber()) == len(a.Value), "new-value-takes-the-next-number")
 	}
+}
+
+// ---------- C13: appending to request / response / topic messages ----------
+
+func verifServicePreserved(a, b *descriptorpb.ServiceDescriptorProto) bool {
+	if a.GetName() != b.GetName() || len(b.Method) < len(a.Method) {
+		return false
+	}
+	ok := true
+	for i, m := range a.Method {
+		n := b.Method[i]
+		av, ap, ab := verifHTTP(m)
+		bv, bp, bb := verifHTTP(n)
+		ok = verifAll(ok, m.GetName() == n.GetName(), m.GetInputType() == n.GetInputType(), m.GetOutputType() == n.GetOutputType(), av == bv, ap == bp, ab == bb)
+	}
+	return ok
+}
+
+// HarnessAppendToServiceMessages: a service method (request with 0..1
+// properties; response absent, declared empty, or with one property) and a
+// publish topic message get 1..E+1 fields appended to the request, the
+// response or the topic message: every file, message, field, service and method
+// of the first compilation is in the second, unchanged.
+func HarnessAppendToServiceMessages() {
+	reqProps := ndIntRange("requestProps", 0, 1)
+	respState := ndChoice("response", 3) // none, empty, one property
+	target := ndChoice("appendTo", 3)    // request, response, topic message
+	if target == 1 && respState == 0 {
+		verifAssume(false) // nothing declared to append to
+	}
+	edits := 1 + ndIntRange("moreEdits", 0, verifParam("E", 0))
+	build := func(applied int) *sourcedef_j5pb.SourceFile {
+		req := []*schema_j5pb.ObjectProperty{}
+		for i := 0; i < reqProps; i++ {
+			req = append(req, &schema_j5pb.ObjectProperty{Name: "first", Schema: verifField(fString)})
+		}
+		var resp *sourcedef_j5pb.AnonymousObject
+		switch respState {
+		case 1:
+			resp = &sourcedef_j5pb.AnonymousObject{}
+		case 2:
+			resp = &sourcedef_j5pb.AnonymousObject{Properties: []*schema_j5pb.ObjectProperty{{Name: "result", Schema: verifField(fString)}}}
+		}
+		topicFields := []*schema_j5pb.ObjectProperty{{Name: "payload", Schema: verifField(fString)}}
+		for e := 0; e < applied; e++ {
+			p := &schema_j5pb.ObjectProperty{Name: verifPropNames[4+e], Schema: verifField(fString)}
+			switch target {
+			case 0:
+				req = append(req, p)
+			case 1:
+				resp.Properties = append(resp.Properties, p)
+			case 2:
+				topicFields = append(topicFields, p)
+			}
+		}
+		svcName, base, evt := "Widget", "/a/v1", "Created"
+		svc := &sourcedef_j5pb.Service{Name: &svcName, BasePath: &base, Methods: []*sourcedef_j5pb.APIMethod{
+			{Name: "Ping", HttpPath: "/ping", HttpMethod: client_j5pb.HTTPMethod_POST, Request: &sourcedef_j5pb.AnonymousObject{Properties: req}, Response: resp}}}
+		topic := &sourcedef_j5pb.Topic{Name: "Gadget", Type: &sourcedef_j5pb.TopicType{Type: &sourcedef_j5pb.TopicType_Publish_{Publish: &sourcedef_j5pb.TopicType_Publish{
+			Messages: []*sourcedef_j5pb.TopicMethod{{Name: &evt, Fields: topicFields}}}}}}
+		return verifSourceFile(
+			&sourcedef_j5pb.RootElement{Type: &sourcedef_j5pb.RootElement_Service{Service: svc}},
+			&sourcedef_j5pb.RootElement{Type: &sourcedef_j5pb.RootElement_Topic{Topic: topic}})
+	}
+	before, err1 := verifCompile(build(0))
+	after, err2 := verifCompile(build(edits))
+	verifAssert(err1 == nil && err2 == nil, "both-compile")
+	if err1 != nil || err2 != nil {
+		return
+	}
+	for _, fa := range before {
+		fb := verifFindFile(after, fa.GetName())
+		verifAssert(fb != nil, "every-file-still-emitted")
+		if fb == nil {
+			continue
+		}
+		verifAssert(verifFilePreserved(fa, fb), "existing-messages-unchanged")
+		for _, sa := range fa.Service {
+			sb := verifFindService(fb, sa.GetName())
+			verifAssert(sb != nil && verifServicePreserved(sa, sb), "existing-services-and-methods-unchanged")
+		}
+	}
+}
+
+// ---------- C07: the dependency summary names every referenced package ----------
+
+// HarnessSummaryDependencies: SourceSummary decides which other packages are
+// loaded before a file is compiled. A property referring to a type of another
+// package — directly, as an array item or as a map value — must be listed in
+// TypeDependencies, or the file only compiles when something else happens to
+// load that package.
+func HarnessSummaryDependencies() {
+	kind := []int{fObjectRef, fOneofRef, fEnumRef}[ndChoice("kind", 3)]
+	card := ndChoice("cardinality", 3)
+	inOneof := ndBool("inOneof")
+	if inOneof && card != 0 {
+		verifAssume(false)
+	}
+	f := verifField(kind)
+	switch card {
+	case 1:
+		f = &schema_j5pb.Field{Type: &schema_j5pb.Field_Array{Array: &schema_j5pb.ArrayField{Items: f}}}
+	case 2:
+		f = &schema_j5pb.Field{Type: &schema_j5pb.Field_Map{Map: &schema_j5pb.MapField{ItemSchema: f}}}
+	}
+	props := []*schema_j5pb.ObjectProperty{{Name: "ref", Schema: f}}
+	el := verifObjectElement("Thing", props)
+	if inOneof {
+		el = verifOneofElement("Thing", props)
+	}
+	summary, err := SourceSummary(verifSourceFile(el), verifWarnings{})
+	verifAssert(err == nil && summary != nil, "summary-built")
+	if err != nil || summary == nil {
+		return
+	}
+	want := []string{"Foreign", "ForeignOneof", "Colour"}[[]int{fObjectRef, fOneofRef, fEnumRef}[0]-fObjectRef]
+	switch kind {
+	case fOneofRef:
+		want = "ForeignOneof"
+	case fEnumRef:
+		want = "Colour"
+	}
+	found := false
+	for _, dep := range summary.TypeDependencies {
+		if dep.Package == "other.v1" && dep.Schema == want {
+			found = true
+		}
+	}
+	verifAssert(found, "foreign-type-listed-as-dependency")
 }
